@@ -38,22 +38,22 @@ rep.coverage.update(evaluations=ev, distinct_nontrivial=nt, exhaustive=exh, samp
          "into a fresh sandbox with canaries; non-trivial = distinct archives that are either escaping or well-formed (both oracles exercised)")
 
 # ---- (b) concurrent requests: the real fetch.go under the controlled scheduler
-# (n, sub, entry, small, preempt, env, shards)
-QUICK = [(2, "", "lib", False, 2, 1, 1), (2, "top", "lib", False, 2, 1, 1), (2, "", "wasi", False, 2, 1, 1), (3, "", "lib", False, 2, 1, 16),
-         (3, "", "wasi", True, 1, 1, 1), (4, "", "lib", True, 1, 1, 1)]
-THOROUGH = [(2, "", "lib", False, 3, 2, 4), (2, "top", "lib", False, 3, 2, 4), (2, "", "wasi", False, 3, 2, 4), (3, "", "lib", False, 2, 2, 16),
-            (3, "", "lib", True, 3, 1, 32), (3, "top", "wasi", True, 2, 1, 8), (4, "", "lib", True, 2, 1, 16)]
+# (n, sub, entry, small, preempt, env, shards, fault kinds (0 = all three))
+QUICK = [(3, "", "lib", True, 3, 1, 48, 1), (2, "", "lib", False, 2, 1, 1, 0), (2, "top", "lib", False, 2, 1, 1, 0), (2, "", "wasi", False, 2, 1, 1, 0),
+         (3, "", "lib", False, 2, 1, 8, 0), (3, "", "wasi", True, 1, 1, 1, 0), (4, "", "lib", True, 1, 1, 1, 0)]
+THOROUGH = [(3, "", "lib", True, 3, 1, 48, 0), (3, "", "wasi", True, 3, 1, 48, 1), (2, "", "lib", False, 3, 2, 4, 0), (2, "top", "lib", False, 3, 2, 4, 0),
+            (2, "", "wasi", False, 3, 2, 4, 0), (3, "", "lib", False, 2, 2, 16, 0), (3, "top", "wasi", True, 2, 1, 8, 0), (4, "", "lib", True, 2, 1, 16, 0)]
 conc = {"configs": {}, "execs": 0, "points": 0}
 try:
     build_explorer()
     jobs = []
     cw = workdir("C20", "conc")
     scratch = "/dev/shm" if os.path.isdir("/dev/shm") and os.access("/dev/shm", os.W_OK) else cw
-    for ci, (n, sub, entry, small, pre, env, shards) in enumerate(THOROUGH if thorough else QUICK):
+    for ci, (n, sub, entry, small, pre, env, shards, kinds) in enumerate(THOROUGH if thorough else QUICK):
         for sh in range(shards):
             o = os.path.join(cw, "c%d_%d.json" % (ci, sh))
             if os.path.exists(o): os.remove(o)
-            cmd = [FETCHX, "-n", str(n), "-sub", sub, "-entry", entry, "-preempt", str(pre), "-env", str(env), "-faults", "-shard", str(sh), "-nshards", str(shards),
+            cmd = [FETCHX, "-n", str(n), "-sub", sub, "-entry", entry, "-preempt", str(pre), "-env", str(env), "-faults", "-faultkinds", str(kinds), "-shard", str(sh), "-nshards", str(shards),
                    "-budget", "6000" if thorough else "1200", "-scratch", scratch, "-out", o] + (["-small"] if small else [])
             jobs.append((ci, sh, o, cmd))
     def runj(j):
